@@ -169,6 +169,14 @@ def run_program(prog):
             with warnings.catch_warnings():
                 warnings.simplefilter("ignore")
                 expected_src.append(np.array((~SemanticPointer(np.array(s[3], float), algebra=alg)).v, float))
+        elif s[0] == "P" and s[2][0] == "ftsp_own":
+            # f(t, sp) -> sp * sp.vocab['A']: the pointer handed to the function belongs to the INPUT vocabulary, whose
+            # 'A' is the output vocabulary's 'B'
+            with warnings.catch_warnings():
+                warnings.simplefilter("ignore")
+                kv = keyvecs_of(s[1])
+                expected_src.append(np.array((SemanticPointer(np.array(s[3], float), algebra=alg)
+                                              * SemanticPointer(np.array(kv["B"], float), algebra=alg)).v, float))
         elif s[0] == "P":
             expected_src.append(src_expected(s[2], s[3], keyvecs_of(s[1])))
         else:
@@ -284,6 +292,13 @@ def run_program(prog):
                     elif f0 == "ftsp_inv":
                         v_in = spa.Vocabulary(v.dimensions, strict=True, algebra=alg)      # no keys: len(v_in) == 0
                         m = spa.Transcode(lambda t, sp: ~sp, input_vocab=v_in, output_vocab=v)
+                        nengo.Connection(nengo.Node(vec), m.input, synapse=None)
+                    elif f0 == "ftsp_own":
+                        kv_ = keyvecs_of(s[1])
+                        v_in = spa.Vocabulary(v.dimensions, strict=True, algebra=alg)
+                        v_in.add("A", np.array(kv_["B"], float))
+                        v_in.add("B", np.array(kv_["A"], float))
+                        m = spa.Transcode(lambda t, sp: sp * sp.vocab["A"], input_vocab=v_in, output_vocab=v)
                         nengo.Connection(nengo.Node(vec), m.input, synapse=None)
                     elif f0 == "state":
                         m = spa.State(v, subdimensions=1 if v.dimensions % 16 else 16)
@@ -568,7 +583,8 @@ class Gen:
         return ("dot", self.fixedop(vid, n - 1), self.pointer(vid, n - 1))
 
 
-SRC_FORMS = ["sp", "symstr", "psym", "exprstr", "ft_array", "ft_str", "ft_sp", "ftsp", "ftsp_arr", "ftsp_inv", "state"]
+SRC_FORMS = ["sp", "symstr", "psym", "exprstr", "ft_array", "ft_str", "ft_sp", "ftsp", "ftsp_arr", "ftsp_inv", "ftsp_own",
+             "state"]
 
 
 def make_context(rng, alg, dims, n_psrc=3, sink=None):
